@@ -62,6 +62,8 @@ class Universe:
         self.uf = {}             # name -> z3 Function
         self.assumptions = []    # human-readable list for evidence
         self.class_names = set() # names usable as class constants (isinstance / observer arguments)
+        self.opaque_attrs = {}   # class -> {attribute: kind string}   (observer attributes of opaque classes)
+        self.recfuns = {}        # name -> {"params": [...], "base": src, "step": src}  (defined by unfolding)
 
     # ---- classes
     def class_id(self, name):
@@ -120,6 +122,9 @@ class Universe:
         for key, c in getattr(mod, "CONTRACTS", {}).items():
             self.contracts[key] = c
         self.class_names.update(getattr(mod, "CLASS_NAMES", []))
+        for c, d in getattr(mod, "OPAQUE_ATTRS", {}).items():
+            self.opaque_attrs.setdefault(c, {}).update(d)
+        self.recfuns.update(getattr(mod, "RECFUN", {}))
         if hasattr(mod, "native_globals"):
             self.__dict__.setdefault("native_globals", {}).update(mod.native_globals())
         for ax in getattr(mod, "AXIOMS", []):
